@@ -62,10 +62,10 @@ func genC11NonAtomic(t *rapid.T) C11Scenario {
 	if rapid.Bool().Draw(t, "cross-index") {
 		// a second claimer walks the KEY index while the first has selected but not yet removed
 		s.Claimers = append(s.Claimers, C11Claimer{Kind: "sm", Index: "key", HowMany: int32(rapid.IntRange(0, 3).Draw(t, "how")), Filter: excludeAnchor(nil), DelayUs: 3000})
-		s.Plan = []vsched.Action{{Site: "swamp:deleteHandler:1:StartTreasureGuard", Hit: 1, Kind: "pause", Until: "claimer-1-done", MaxWaitMs: 800}}
+		s.Plan = []vsched.Action{{Site: "swamp:deleteHandler:StartTreasureGuard:ac9b2b", Hit: 1, Kind: "pause", Until: "claimer-1-done", MaxWaitMs: 800}}
 	} else {
 		s.Mutators = []C11Mutator{{Kind: "delete", Keys: []int{rapid.IntRange(0, n-1).Draw(t, "victim")}, DelayUs: 3000}}
-		s.Plan = []vsched.Action{{Site: "swamp:deleteHandler:1:StartTreasureGuard", Hit: 1, Kind: "pause", Until: "mutators-done", MaxWaitMs: 800}}
+		s.Plan = []vsched.Action{{Site: "swamp:deleteHandler:StartTreasureGuard:ac9b2b", Hit: 1, Kind: "pause", Until: "mutators-done", MaxWaitMs: 800}}
 	}
 	return s
 }
@@ -88,10 +88,10 @@ func genC11Stale(t *rapid.T) C11Scenario {
 	victims := []int{rapid.IntRange(0, n-1).Draw(t, "victim")}
 	if rapid.Bool().Draw(t, "pe") {
 		s.Claimers = []C11Claimer{{Kind: "pe", HowMany: 0, Filter: f, Ops: []POp{{Kind: "set-owner", S: "w0"}}, Lease: 900}}
-		s.Plan = []vsched.Action{{Site: "beacon:SelectExpiredForPatchWithCap:2:Lock", Hit: 1, Kind: "pause", Until: "mutators-done", MaxWaitMs: 800}}
+		s.Plan = []vsched.Action{{Site: "beacon:SelectExpiredForPatchWithCap:Lock:e380a5", Hit: 1, Kind: "pause", Until: "mutators-done", MaxWaitMs: 800}}
 	} else {
 		s.Claimers = []C11Claimer{{Kind: "sm", Index: rapid.SampledFrom([]string{"key", "exp", "cre"}).Draw(t, "index"), HowMany: 0, Filter: excludeAnchor(f)}}
-		s.Plan = []vsched.Action{{Site: "beacon:ShiftMatching:2:Lock", Hit: 1, Kind: "pause", Until: "mutators-done", MaxWaitMs: 800}}
+		s.Plan = []vsched.Action{{Site: "beacon:ShiftMatching:Lock:e380a5", Hit: 1, Kind: "pause", Until: "mutators-done", MaxWaitMs: 800}}
 	}
 	s.Mutators = []C11Mutator{{Kind: "patch", Keys: victims, Ops: []POp{{Kind: "set-status", S: "done"}}, DelayUs: 3000}}
 	return s
@@ -119,7 +119,7 @@ func genC11Gap(t *rapid.T) C11Scenario {
 		m.Ops = []POp{{Kind: "set-status", S: "done"}}
 	}
 	s.Mutators = []C11Mutator{m}
-	s.Plan = []vsched.Action{{Site: "swamp_patch_expired:applyPatchExpiredOne:1:StartTreasureGuard", Hit: 1, Kind: "pause", Until: "mutators-done", MaxWaitMs: 800}}
+	s.Plan = []vsched.Action{{Site: "swamp_patch_expired:applyPatchExpiredOne:StartTreasureGuard:f4a9b0", Hit: 1, Kind: "pause", Until: "mutators-done", MaxWaitMs: 800}}
 	return s
 }
 
@@ -143,7 +143,7 @@ func genC11Resave(t *rapid.T) C11Scenario {
 	}
 	s.Claimers = []C11Claimer{{Kind: "pe", HowMany: 0, Ops: []POp{{Kind: "set-owner", S: "w0"}}, Lease: lease}}
 	s.Mutators = []C11Mutator{{Kind: "delete", Keys: []int{rapid.IntRange(0, n-1).Draw(t, "victim")}, DelayUs: 3000}}
-	s.Plan = []vsched.Action{{Site: "swamp_patch_expired:applyPatchExpiredOne:1:StartTreasureGuard", Hit: 1, Kind: "pause", Until: "mutators-done", MaxWaitMs: 800}}
+	s.Plan = []vsched.Action{{Site: "swamp_patch_expired:applyPatchExpiredOne:StartTreasureGuard:f4a9b0", Hit: 1, Kind: "pause", Until: "mutators-done", MaxWaitMs: 800}}
 	return s
 }
 
@@ -171,11 +171,11 @@ func genC11ReindexDup(t *rapid.T) C11Scenario {
 	s.Plan = []vsched.Action{
 		// PatchExpired has selected and patched all n records (n passages of beacon.Add through the
 		// write buffer); hold it before the re-index until the writer has started, plus a moment
-		{Site: "beacon:ReindexExpiration:1:atomic.StoreInt32", Hit: 1, Kind: "pause", Until: "site:swamp_patch:PatchFields:1:StartTreasureGuard", MaxWaitMs: 150},
-		{Site: "beacon:ReindexExpiration:2:Lock", Hit: 1, Kind: "sleep", SleepUs: 4000},
+		{Site: "beacon:ReindexExpiration:atomic.StoreInt32:b20a54", Hit: 1, Kind: "pause", Until: "site:swamp_patch:PatchFields:StartTreasureGuard:f4a9b0", MaxWaitMs: 150},
+		{Site: "beacon:ReindexExpiration:Lock:e380a5", Hit: 1, Kind: "sleep", SleepUs: 4000},
 		// the writer's SaveFunction has removed the victim from the expiry index; its Add (passage n+1)
 		// waits until PatchExpired has re-indexed (the DESC re-sort comes after the ASC re-index)
-		{Site: "beacon:Add:1:atomic.StoreInt32", Hit: n + 1, Kind: "pause", Until: "site:beacon:SortByExpirationTimeDesc:1:Lock", MaxWaitMs: 150},
+		{Site: "beacon:Add:atomic.StoreInt32:b20a54", Hit: n + 1, Kind: "pause", Until: "site:beacon:SortByExpirationTimeDesc:Lock:e380a5", MaxWaitMs: 150},
 	}
 	return s
 }
